@@ -80,7 +80,8 @@ Definition shape_ok (s : shape) : bool :=
   q_enqueue_pumps s && q_flush_pumps s && q_completed_pumps s &&
   negb (side_eqb (p_in_side s) (p_out_side s)) &&
   p_write_checks s && p_pause_checks s && p_resume_checks s && p_pump_checks s &&
-  h_queues_from_reported_buffers s && h_le_shares_acl_queue_when_no_le_buffers s.
+  h_queues_from_reported_buffers s && h_le_shares_acl_queue_when_no_le_buffers s &&
+  h_completed_event_visits_every_entry s && h_disconnection_flushes_all_queues s.
 Theorem C04_source_shape_is_the_modelled_shape : shape_ok shape_of_source = true.
 Proof. vm_compute. reflexivity. Qed.
 Print Assumptions C04_source_shape_is_the_modelled_shape.
